@@ -143,7 +143,7 @@ func taxa(n int, prefix string) []string {
 
 // SchedCase is the schedule part of a case.
 type SchedCase struct {
-	Strategy int      `json:"strategy"` // 0 uniform, 1 run-to-block, 2 round-robin, 3 PCT
+	Strategy int      `json:"strategy"` // 0 uniform, 1 run-to-block, 2 round-robin, 3 PCT, 4 starve (one goroutine in six only runs when nothing else can)
 	Choices  []uint32 `json:"choices"`
 	Seed     uint64   `json:"seed"`
 	SitePct  uint32   `json:"site_pct"`
@@ -155,7 +155,7 @@ type SchedCase struct {
 
 func genSched(rt *rapid.T) SchedCase {
 	s := SchedCase{}
-	s.Strategy = rapid.IntRange(0, 3).Draw(rt, "strategy")
+	s.Strategy = rapid.IntRange(0, 4).Draw(rt, "strategy")
 	s.Choices = rapid.SliceOfN(rapid.Uint32Range(0, 15), 0, 120).Draw(rt, "choices")
 	s.Seed = rapid.Uint64Range(0, 1<<40).Draw(rt, "schedseed")
 	s.SitePct = []uint32{100, 30, 10, 0}[rapid.IntRange(0, 3).Draw(rt, "sitepct")]
